@@ -358,6 +358,15 @@ func c05Body(c *core.Ctx) {
 		mu.Lock()
 		defer mu.Unlock()
 		c.Eval(1)
+		if out.StopDropped {
+			c.Count("obligations", 1)
+			at := ""
+			if spec.Stop != nil {
+				at = spec.Stop.At
+			}
+			c.Violate(idx, "stop-dropped:at="+at+":kind=http", "POST /stop on the run's socket was answered 200 but 20 s later the stop had not been acted upon (no step signalled, the run not marked canceled)", map[string]any{"case": spec, "trace": TraceSig(out)})
+			return
+		}
 		if out.Inconclusive != "" {
 			c.Inconclusive(fmt.Sprintf("case %d: %s", idx, out.Inconclusive))
 			return
